@@ -21,13 +21,22 @@ import dippy.dippy as D  # noqa: E402
 from dippy.core.analyzer import analyze  # noqa: E402
 from dippy.core.config import parse_config  # noqa: E402
 
+CONFIG_OBJECTS = {}
 real_stdin = sys.stdin
 real_stdout = sys.stdout
 for line in real_stdin:
     q = json.loads(line)
     try:
         if q["kind"] == "analyze":
-            d = analyze(q["cmd"], parse_config(q["config"]), Path(q["cwd"]))
+            # a long-lived process keeps the configurations it has loaded: with "reuse" the same Config object serves every
+            # query with that text (anything an analysis stores on it is then history)
+            if q.get("reuse"):
+                cfg = CONFIG_OBJECTS.get(q["config"])
+                if cfg is None:
+                    cfg = CONFIG_OBJECTS[q["config"]] = parse_config(q["config"])
+            else:
+                cfg = parse_config(q["config"])
+            d = analyze(q["cmd"], cfg, Path(q["cwd"]))
             out = {"action": d.action, "reason": d.reason}
         elif q["kind"] == "main":
             buf = io.StringIO()
